@@ -44,6 +44,9 @@ def _task(args):
 
     t0 = time.monotonic()
     ctx = core.Ctx(tier, seed, shard)
+    if not os.environ.get("GFV_KEEP_STDERR"):
+        # the GTF importer writes progress to stderr unconditionally
+        sys.stderr = open(os.devnull, "w")
     try:
         mod = _load(prop)
         legobj = _legs(mod)[legname]
